@@ -97,6 +97,8 @@ pub fn ops_metadata() -> Vec<Op> {
         }
         ops.push(Op::MkdirM(s(p), 0o700));
         ops.push(Op::MkdirM(s(p), 0o755));
+        // a mode without owner write/search: every component the call creates carries exactly this mode
+        ops.push(Op::MkdirM(s(p), 0o550));
         ops.push(Op::MkfileM(s(p), 0o600));
         ops.push(Op::MkfileM(s(p), 0o755));
         ops.push(Op::Chown(s(p), 5, 6));
@@ -168,6 +170,11 @@ pub fn ops_chain() -> Vec<Op> {
     ops.push(Op::MoveP(s("a"), s("../a")));
     ops.push(Op::SetCwd(s("..")));
     ops.push(Op::SetCwd(s("/")));
+    // two and three leading '..' from a cwd two and three levels deep
+    ops.push(Op::SetCwd(s("../..")));
+    ops.push(Op::Mkfile(s("../../a")));
+    ops.push(Op::MkdirP(s("../../../a/a")));
+    ops.push(Op::Remove(s("../../a")));
     ops
 }
 
@@ -270,7 +277,7 @@ pub fn prefix_names(op: &Op) -> Op {
 
 pub fn query_ops() -> Vec<Op> {
     let mut paths: Vec<String> = namespace(&["a", "b"], 2);
-    for p in ["/", "/zz", "/a/a/a", "a", "./b", "..", "/a/../b", "b/", "a/a", "/a//a"] {
+    for p in ["/", "/zz", "/a/a/a", "a", "./b", "..", "../..", "../../a", "/a/../b", "b/", "a/a", "/a//a"] {
         paths.push(s(p));
     }
     let mut q = vec![Op::Cwd, Op::Root];
